@@ -312,14 +312,11 @@ Section ObjStm.
       + injection Hk as <-. apply Fin. reflexivity.
   Qed.
 
-  Lemma write_compressed_R rs os big st st' :
-    SInv st -> write_compressed rs os big st = Ok st' -> R st st'.
+  Lemma wc_one_R rs os big st st' :
+    SInv st -> strm st = None -> length rs = length os -> (forall n g, In (n, g) rs -> g = 0) ->
+    wc_one fmt fmt_sd encS encB fenc c rs os big st = Ok st' -> R st st'.
   Proof.
-    intros SI H. unfold Writer.write_compressed in H. destruct (strm st) eqn:Hs; [discriminate|].
-    destruct (check_compressed rs os) eqn:CC; [|discriminate]. cbn [negb] in H.
-    destruct os as [|o0 os0]; [injection H as <-; apply R_refl|]. set (os := o0 :: os0) in *.
-    destruct (negb (use_objstm c)).
-    { eapply put_all_R; exact H. }
+    intros SI Hs Len Zg H. unfold wc_one in H.
     binv H. destruct a as [sref st1]. binv Hk.
     destruct (objstm_parts rs (map (fun o => fmt (pobj_obj o)) os) 0) as [head body] eqn:OP.
     binv Hk0.
@@ -334,7 +331,6 @@ Section ObjStm.
     rewrite S4 in Es. injection Es as <-. cbn in Hk.
     destruct (set_comp_facts _ _ _ _ _ Hb0) as [Xc [Wc [ND Fr]]].
     destruct (record_all_fields rs os a) as [Xr Wr].
-    destruct (check_compressed_facts _ _ CC) as [Len Zg].
     (* the container's entry *)
     assert (Xo : xlookup sref (xref (record_all rs os a)) = None /\ xref a0 = xref (record_all rs os a) ++ [(sref, EUse (pos (record_all rs os a)) 0)] /\ wr a0 = wr (record_all rs os a)).
     { unfold open_stream in Hb1. rewrite S3 in Hb1. binv Hb1. unfold set_xref in Hb2.
@@ -375,6 +371,36 @@ Section ObjStm.
     assert (Wn : wlookup m (wr st) = None).
     { eapply wr_fresh; [exact I0|]. rewrite <- F3. apply Fr. eapply nth_error_In; eassumption. }
     rewrite Wn, Hw. reflexivity.
+  Qed.
+
+
+  Lemma wc_chunks_R fuel : forall rs os bigs st st',
+    SInv st -> strm st = None -> length rs = length os -> (forall n g, In (n, g) rs -> g = 0) ->
+    wc_chunks fmt fmt_sd encS encB fenc c fuel rs os bigs st = Ok st' -> R st st'.
+  Proof.
+    induction fuel as [|f IH]; intros rs os bigs st st' SI Hs Len Zg H; cbn [wc_chunks] in H; [discriminate|].
+    destruct (Nat.ltb _ _).
+    - binv H.
+      assert (L1 : length (firstn max_members rs) = length (firstn max_members os)) by (rewrite !firstn_length; lia).
+      assert (Z1 : forall n g, In (n, g) (firstn max_members rs) -> g = 0).
+      { intros n g Hin. apply (Zg n g). rewrite <- (firstn_skipn max_members rs). apply in_or_app. auto. }
+      assert (L2 : length (skipn max_members rs) = length (skipn max_members os)) by (rewrite !skipn_length; lia).
+      assert (Z2 : forall n g, In (n, g) (skipn max_members rs) -> g = 0).
+      { intros n g Hin. apply (Zg n g). rewrite <- (firstn_skipn max_members rs). apply in_or_app. auto. }
+      destruct (wc_one_inv _ _ _ _ _ _ _ _ _ _ _ SI Hs Hb) as [S1 [N1 _]].
+      eapply R_trans; [exact (wc_one_R _ _ _ _ _ SI Hs L1 Z1 Hb) | exact (IH _ _ _ _ _ S1 N1 L2 Z2 Hk)].
+    - exact (wc_one_R _ _ _ _ _ SI Hs Len Zg H).
+  Qed.
+
+  Lemma write_compressed_R rs os bigs st st' :
+    SInv st -> write_compressed rs os bigs st = Ok st' -> R st st'.
+  Proof.
+    intros SI H. unfold Writer.write_compressed in H. destruct (strm st) eqn:Hs; [discriminate|].
+    destruct (check_compressed rs os) eqn:CC; [|discriminate]. cbn [negb] in H.
+    destruct (check_compressed_facts _ _ CC) as [Len Zg].
+    destruct os as [|o0 os0]; [injection H as <-; apply R_refl|].
+    destruct (negb (use_objstm c)); [eapply put_all_R; exact H|].
+    eapply wc_chunks_R; eassumption.
   Qed.
 
   Lemma write_xref_stream_R tr st st' : write_xref_stream tr st = Ok st' -> R st st'.
